@@ -183,8 +183,9 @@ def cases(tier, seed, prop):
     elif prop in ('C12', 'C15'):
         n = 3000 if tier == 'quick' else 40000
         names = ['div', 'p', 'span', 'ul', 'li', 'em', 'b', 'hr', 'br', 'strong', 'section', 'x', 'table', 'tr', 'td', 'article', 'body', 'i', 'h1', 'nav']
+        if prop == 'C15': names = names + ['samp', 'kbd', 'var', 'code', 'q', 's', 'tt', 'sub', 'sup', 'cite', 'dfn', 'u', 'small', 'big', 'del', 'ins', 'strike']
         o12 = dict(base_opt('C04'), names=names, p_attr=.3, p_text=.35, p_noname=.1, p_void_child=.25,
-                   attr_pool=[('attr', 'title', 'v', 'raw'), ('attr', 'data-x', 'a b', 'dq'), ('attr', 'lang', None, None), ('attr', 'rel', 'e', 'expr')] if prop == 'C12' else [('attr', 'title', 'v', 'raw'), ('attr', 'data-x', 'a b', 'dq'), ('attr', 'd', 'M0', 'raw'), ('attr', 'as', 'font', 'raw'), ('attr', 'a', '1', 'raw'), ('attr', 's', 'z', 'dq'), ('attr', 'rel', 'e', 'expr'), ('attr', 'on', 'f(x)', 'expr')],
+                   attr_pool=[('attr', 'title', 'v', 'raw'), ('attr', 'data-x', 'a b', 'dq'), ('attr', 'lang', None, None), ('attr', 'rel', 'e', 'expr')] if prop == 'C12' else [('attr', 'title', 'v', 'raw'), ('attr', 'data-x', 'a b', 'dq'), ('attr', 'd', 'M0', 'raw'), ('attr', 'as', 'font', 'raw'), ('attr', 'a', '1', 'raw'), ('attr', 's', 'z', 'dq'), ('attr', 'rel', 'e', 'expr'), ('attr', 'on', 'f(x)', 'expr'), ('bool', 'hidden'), ('bool', 'foo'), ('bool', 'disabled')],
                    text_pool=['txt', 'a b', 'l1\nl2', 'one\ntwo\nthree', 'x', ' sp ', 'first\rsecond', 'p\r\nq'] if prop == 'C12' else ['txt', 'a b', 'l1\nl2', 'one\ntwo\nthree', 'x', 'first\rsecond', 'a\x0bb', 'p\r\nq'])
         for _ in range(n):
             seq = mk.gen_seq(rnd, o12, [rnd.randint(1, 8)], 2)
@@ -792,6 +793,11 @@ def oracle_C12(case, o):
 
 
 # ------------------------------------------------------------------------------------------------- C15
+# documented boolean attribute names (pinned copy of output.booleanAttributes)
+BOOL_DOC = ['contenteditable', 'seamless', 'async', 'autofocus', 'autoplay', 'checked', 'controls', 'defer', 'disabled', 'formnovalidate', 'hidden', 'ismap', 'loop', 'multiple', 'muted',
+            'novalidate', 'readonly', 'required', 'reversed', 'selected', 'typemustmatch']
+
+
 def lines_of(forest, sy, depth, acc):
     """one line per element at its depth: name#id.class.class + the syntax's attribute list; `div` omitted when id / class present;
     multi-line text one line per text line one level deeper"""
@@ -800,6 +806,7 @@ def lines_of(forest, sy, depth, acc):
         attrs = []
         for m in el['mentions']:
             if m[0] == 'attr' and m[1] not in [a[0] for a in attrs]: attrs.append((m[1], m[2], m[3]))
+            elif m[0] == 'bool' and m[1] not in [a[0] for a in attrs]: attrs.append((m[1], None, 'bool'))
         name = el['name']
         if not name:      # text-only node: its text on a line of its own
             acc.append((depth, ('| ' if sy in ('pug', 'slim') else '') + el['text'])); continue
@@ -809,7 +816,8 @@ def lines_of(forest, sy, depth, acc):
             if m[0] == 'id' and 'id' not in done: head += '#' + ids[-1]; done.add('id')
             elif m[0] == 'class' and 'class' not in done: head += ''.join('.' + c for c in cls); done.add('class')
         if attrs:
-            parts = ['%s={%s}' % (n, v) if k == 'expr' else '%s="%s"' % (n, v) for n, v, k in attrs]     # an expression keeps its braces
+            # an expression keeps its braces; a boolean attribute without value: `name=true` in haml, the bare name in pug and slim
+            parts = [('%s=true' % n if sy == 'haml' else n) if (k == 'bool' or (v is None and n in BOOL_DOC)) else '%s={%s}' % (n, v) if k == 'expr' else '%s="%s"' % (n, v) for n, v, k in attrs]
             if sy == 'haml': head += '(' + ' '.join(parts) + ')'
             elif sy == 'pug': head += '(' + ', '.join(parts) + ')'
             else: head += ' ' + ' '.join(parts)
@@ -834,7 +842,7 @@ def oracle_C15(case, o):
     opt = Config(mkcfg(case['c'])).options
     sy = case['c']['syntax']; ind = opt.get('output.indent'); nl = opt.get('output.newline')
     forest = mk.unroll(mk.flat(case['seq']))
-    mk.implicit_names(forest, None, [x.lower() for x in opt.get('inlineElements')])
+    mk.implicit_names(forest, None, inline_doc(case['c']))
     want = lines_of(forest, sy, 0, [])
     got = []
     for line in o[1].split(nl):
